@@ -154,3 +154,40 @@ class CMod:
     def init(self, which: str):
         n = len(self._index["state" if which == "state" else "parameter"])
         return self.lib.init(which, n)
+
+
+def model_names(model):
+    return {"state": X.state_names(model), "parameter": X.param_names(model), "monitor": [a["name"] for a in model["assigns"]]}
+
+
+def make_mod(backend: str, ode, model, schemes=None, cc=("gcc", ("-O0",), ()), **opts):
+    """generate + build a module through the public get_code entry points.
+    raises: GenError(phase, exc)"""
+    try:
+        if backend == "C":
+            code = B.c_code(ode, schemes=schemes, **opts)
+        else:
+            code = B.py_code(ode, schemes=schemes, backend=backend, **opts)
+    except Exception as ex:
+        raise GenError("codegen", ex, None)
+    try:
+        if backend == "C":
+            return CMod(code, model_names(model), cc=cc[0], flags=cc[1], std_flags=cc[2])
+        if backend == "jax":
+            return JaxMod(code)
+        return PyMod(code)
+    except B.CompileError as ex:
+        raise GenError("compile", ex, code)
+    except Exception as ex:
+        raise GenError("import", ex, code)
+
+
+class GenError(Exception):
+    def __init__(self, phase, exc, code):
+        super().__init__(f"{phase}: {type(exc).__name__}: {exc}")
+        self.phase = phase
+        self.exc = exc
+        self.code = code
+
+    def signature(self):
+        return f"{self.phase}:{type(self.exc).__name__}" if self.phase != "compile" else "compile-error"
